@@ -407,7 +407,53 @@ func Finish(r *Report, c *Ctx, verifDir, tier string, seed int64, t0 time.Time, 
 			}
 		}
 	}
+	// relocation: a listed finding whose site no longer exists under its key, and an unlisted violation of the same
+	// rule with the same construct text in the same package (the loop / allocation was moved into a helper or the
+	// function was renamed) are the same finding.
+	relocated := map[*Obligation]string{}
+	if len(viol) > 0 {
+		split := func(key string) (rule, pkg, construct string, ok bool) {
+			parts := strings.SplitN(key, ":", 3)
+			if len(parts) != 3 {
+				return "", "", "", false
+			}
+			fn := parts[1]
+			if i := strings.Index(fn, "."); i > 0 {
+				pkg = fn[:i]
+			}
+			return parts[0], pkg, parts[2], pkg != ""
+		}
+		var rest []*Obligation
+		for _, o := range viol {
+			matched := ""
+			if o.Status == Violated {
+				if ru, pk, con, ok := split(o.Key); ok && (ru == "G1" || ru == "G2") {
+					for k := range kn {
+						if seenKnown[k] {
+							continue
+						}
+						if ru2, pk2, con2, ok2 := split(k); ok2 && ru2 == ru && pk2 == pk && con2 == con {
+							matched = k
+							break
+						}
+					}
+				}
+			}
+			if matched != "" {
+				seenKnown[matched] = true
+				relocated[o] = matched
+				knownHit = append(knownHit, o)
+			} else {
+				rest = append(rest, o)
+			}
+		}
+		viol = rest
+	}
 	for _, o := range knownHit {
+		if k, ok := relocated[o]; ok {
+			fmt.Printf("KNOWN-FINDING: property=%s %s — %s [%s] (listed as %s; the construct moved)\n", r.Prop, o.Key, kn[k].What, o.Pos, k)
+			continue
+		}
 		fmt.Printf("KNOWN-FINDING: property=%s %s — %s [%s]\n", r.Prop, o.Key, kn[o.Key].What, o.Pos)
 	}
 	// a listed finding that no longer reproduces is only noted
